@@ -242,8 +242,50 @@ def ob_loop_shared():
 
 
 # ------------------------------------------------------------------ refusal
+def _refusal_replay(model):
+    """the same cases on the real classes (load_from_file replaced by a stub handing out the stored object)"""
+    from unittest import mock
+    from pyphysim.simulations.runner import SimulationResultsSaver
+    from pyphysim.simulations.results import SimulationResults
+    from pyphysim.simulations.parameters import SimulationParameters
+    try:
+        def mk(d, unpack="SNR"):
+            p = SimulationParameters.create(d)
+            p.set_unpack_parameter(unpack)
+            return p.get_unpacked_params_list()
+        base = {"SNR": np.array([0, 5, 10]), "M": 4, "rep_max": 100, "taps": np.array([1.0, 0.5, 0.25])}
+        cases = [("same", mk(base)[1], mk(base)[1], "ok"), ("only rep_max differs", mk(dict(base, rep_max=7))[1], mk(base)[1], "ok"),
+                 ("fixed value differs", mk(dict(base, M=16))[1], mk(base)[1], "ValueError"),
+                 ("other grid values", mk(dict(base, SNR=np.array([0, 6, 10])))[1], mk(base)[1], "ValueError"),
+                 ("fixed array parameter of another length", mk(dict(base, taps=np.array([1.0, 0.5])))[1], mk(base)[1], "ValueError"),
+                 ("fixed array parameter with another entry", mk(dict(base, taps=np.array([1.0, 0.5, 0.125])))[1], mk(base)[1], "ValueError")]
+        rm = "rep_max"
+        for nm in sorted({rm[i:j] for i in range(len(rm)) for j in range(i + 1, len(rm) + 1)} - {rm}) + ["rep_max_", "xrep_max", "REP_MAX", "repmax"]:
+            b2 = dict(base)
+            b2[nm] = 1.5
+            cases.append(("parameter named %r differs" % nm, mk(dict(b2, **{nm: 2.5}))[1], mk(b2)[1], "ValueError"))
+        for label, stored, now, want in cases:
+            sv = SimulationResultsSaver()
+            sv.set_results_filename("res")
+            sv.results.set_parameters(now._original_sim_params)
+            st = SimulationResults()
+            st.set_parameters(stored)
+            st.current_rep = 3
+            with mock.patch.object(SimulationResults, "load_from_file", staticmethod(lambda fn, st=st: st)):
+                try:
+                    got = sv.load_partial_results(now)
+                    outcome = "ok" if got is st else "returned %r" % (got,)
+                except ValueError:
+                    outcome = "ValueError"
+            if outcome != want:
+                return {"confirmed": True, "case": label, "load_partial_results": outcome, "expected": want}
+        return {"confirmed": False, "note": "real classes accept/refuse every listed case as specified"}
+    except Exception as e:
+        return {"confirmed": False, "error": "replay crashed: %r" % (e,)}
+
+
 @obligation("load/refuses_other_parameters",
-            desc="load_partial_results: stored parameters equal (also when only rep_max differs) -> the stored results; different value / "
+            desc="load_partial_results: stored parameters equal (also when only rep_max differs - and only a parameter named exactly rep_max; 30 look-alike names are compared like any other) -> the stored results; different value / "
                  "different unpack index / different keys / array parameters of another length or entry -> ValueError (not "
                  "swallowed); every load on one saver object is checked, not only the first; missing file (IOError) -> None; no filename -> None")
 def ob_refusal():
@@ -272,16 +314,28 @@ def ob_refusal():
                  ("fixed array parameter with another entry", mk(dict(base, taps=np.array([1.0, 0.5, 0.125])))[1], "ValueError"),
                  # the same combination saved under a longer grid is the same combination: accepted
                  ("longer grid, same value at this index", mk(dict(base, SNR=np.array([0, 5, 10, 15])))[1], "ok")]
+        # 'rep_max' is the ONLY name whose value may differ: every other name is compared - in particular names that resemble it
+        # (every proper substring of it, extensions, other case)
+        rm = "rep_max"
+        alike = sorted({rm[i:j] for i in range(len(rm)) for j in range(i + 1, len(rm) + 1)} - {rm}) + ["rep_max_", "xrep_max", "REP_MAX", "repmax"]
+        for nm in alike:
+            b2 = dict(base)
+            b2[nm] = 1.5
+            cases.append(("parameter named %r differs" % nm, (mk(dict(b2, **{nm: 2.5}))[1], mk(b2)[1]), "ValueError"))
+            cases.append(("parameter named %r equal" % nm, (mk(b2)[1], mk(b2)[1]), "ok"))
         for label, stored, want in cases:
+            now = cur
+            if isinstance(stored, tuple):
+                stored, now = stored
             sv = SimulationResultsSaver()
             sv.set_results_filename("res")
-            sv.results.set_parameters(cur._original_sim_params)
+            sv.results.set_parameters(now._original_sim_params)
             st = SimulationResults()
             st.set_parameters(stored)
             st.current_rep = 3
             it.models["pyphysim.simulations.results:SimulationResults.load_from_file"] = lambda interp, fn, st=st: st
             try:
-                got = it.call(it.getattr(sv, "load_partial_results"), [cur])
+                got = it.call(it.getattr(sv, "load_partial_results"), [now])
                 goals.append(Goal("%s: accepted" % label, want == "ok" and got is st))
             except PyRaise as pr:
                 goals.append(Goal("%s: refused with ValueError" % label, want == "ValueError" and isinstance(pr.exc, ValueError)))
@@ -324,7 +378,7 @@ def ob_refusal():
             except PyRaise as pr:
                 goals.append(Goal("load %d on the same saver: refused with ValueError" % k, want == "ValueError" and isinstance(pr.exc, ValueError)))
         return goals
-    return verify(body, check_side=False)
+    return verify(body, check_side=False, replay=_refusal_replay)
 
 
 # ------------------------------------------------------------------ bounded: real kill / restart
